@@ -126,6 +126,10 @@ type executor struct {
 
 	curTag   string // entity tag (wire form) of the target just before a conditional request, "" = none
 	curKnown bool
+
+	bk     *bkCore // recording backend of a dav server (nil for the plain file server)
+	calBk  *calBackend
+	cardBk *cardBackend
 }
 
 // Execute runs a plan inside one synctest bubble.
@@ -206,6 +210,9 @@ func (ex *executor) run() {
 		ex.fs = ex.newMemFS()
 	}
 	ex.h = &webdav.Handler{FileSystem: ex.fs}
+	if p.Config.Server != "" {
+		ex.davServer()
+	}
 	if p.Config.Judge {
 		ex.judge = model.NewJudge()
 	}
@@ -396,6 +403,9 @@ func (ex *executor) rawStep(idx int, st *Step) {
 		return
 	}
 	ex.seam.BeginStep(st.Faults)
+	if ex.bk != nil {
+		ex.bk.begin(st.Faults)
+	}
 	for _, f := range st.Faults {
 		ex.res.Stats.FaultsPlan[f.Seam+":"+f.Kind]++
 	}
@@ -418,6 +428,19 @@ func (ex *executor) rawStep(idx int, st *Step) {
 	ex.log.Addf("  -> %d %v body=%q", xc.Resp.Status, sortedHeader(xc.Resp.H), clipS(canonBody(&xc.Resp), 300))
 	ex.last = xc
 	ex.noteTag(xc)
+	if srv := ex.plan.Config.Server; srv != "" {
+		if srv == "webdav-local" || srv == "webdav-mem" {
+			ex.judgeExchange(idx, st, xc)
+		} else {
+			ex.res.Stats.Classes[srv+" "+st.Method+" "+st.Kind]++
+			if xc.Panic != "" {
+				ex.res.Stats.Panics++
+				ex.finding(Violation{Prop: "C13", Clause: "panic", Class: srv + " " + st.Method + " " + st.Kind, Msg: "handler panicked: " + xc.Panic, Step: idx})
+			}
+		}
+		ex.judgeDav(idx, st, xc)
+		return
+	}
 	ex.judgeExchange(idx, st, xc)
 }
 
